@@ -454,18 +454,25 @@ func (u *Unit) binop(st *State, op token.Token, x, y Val, xt, rt types.Type, rea
 			}
 		}
 		return res(app("Int", "tmod", x.T, y.T))
-	case token.SHL:
+	case token.SHL, token.SHR:
+		// a negative (signed) shift count panics at run time
+		if _, isConst := constInt(y); !isConst && y.Typ != nil {
+			if lo, _, ok := intRange(y.Typ); ok && lo != "0" {
+				u.oblige("safety", reach, app("Bool", ">=", y.T, intLit(0)), "safety.shift", "", "shift count is not negative")
+			}
+		}
+		if op == token.SHR {
+			if k, ok := constInt(y); ok && k >= 0 && k < 64 {
+				return res(app("Int", "div", x.T, pow2(k)))
+			}
+			return u.bitop(st, "bitshr", x, y, rt)
+		}
 		if k, ok := constInt(y); ok && k >= 0 && k < 64 {
 			r := app("Int", "*", x.T, pow2(k))
 			// shifts discard high bits silently: wrap
 			return Val{T: u.wrap(u.def(r), rt), Typ: rt}
 		}
 		return u.bitop(st, "bitshl", x, y, rt)
-	case token.SHR:
-		if k, ok := constInt(y); ok && k >= 0 && k < 64 {
-			return res(app("Int", "div", x.T, pow2(k)))
-		}
-		return u.bitop(st, "bitshr", x, y, rt)
 	case token.AND:
 		if k, ok := constInt(y); ok && k >= 0 && (k+1)&k == 0 {
 			return res(app("Int", "mod", x.T, bigLit(fmt.Sprint(k+1))))
